@@ -9,7 +9,9 @@ FRAGMENT = {
                'letter packets in 525-line runs) interleaved line by line into frames by the seeded scheduler x station scripts over unambiguous rows '
                'of the CNI table (switches, back-and-forth, programme and WSS changes, Teletext pages that must stay cached, empty frames) x faults '
                'attached to single receptions, against a reference model of the statement (per-carrier repeat streaks, shared re-announcement '
-               'permission, last announced station / aspect, page sets); real service decoder under ASan+UBSan; events attributed to the exact line '
+               'permission, last announced station / aspect, page sets) x handler population (up to four handlers, event masks seeded, registered / re-registered / '
+               'removed at script points through both registration APIs) x real re-tunes (station change together with dropped frames, the new station then '
+               'transmitting for 50-110 more frames, Teletext pages in all eight magazines); real service decoder under ASan+UBSan; events attributed to the exact line '
                'through link-time wrappers of the per-line entry points; sampling, not proof',
  'level_note': 'trusted: my VPS / 8/30-1 / 8/30-2 / WSS / XDS encoders (EN 300 231, EN 300 706 9.8, EN 300 294, EIA-608; cross-checked once per '
                'process against the library\'s stand-alone decode functions), the CNI table as the definition of station identity, the leniencies '
@@ -18,10 +20,12 @@ FRAGMENT = {
  'rule': 'one evaluation = one simulated run: 15-85 reception opportunities per carrier (6-30 XDS packets per source), a station script of 6-12 steps, '
          '1-5 lines per vbi_decode() call with timestamps advancing 40 ms (33.4 ms for XDS), a third of the runs fault free; XDS stations: 8 network names x own / '
          'second affiliate / shared call letters or none, a third of the station switches go to an affiliate (same name, other call letters); 60% strict 625-line runs, '
-         '15% 625-line runs with dropped frames (oracle relaxed to fidelity + debounce + memory safety after the first gap), 25% 525-line XDS runs; '
+         '15% 625-line runs with dropped frames (from a gap on the oracle is relaxed to fidelity + debounce + memory safety + "old pages gone after a real change" '
+         'until the suspected channel switch is visibly over: executed by the decoder, or a change between identified stations confirmed; then strict again), '
+         '25% 525-line XDS runs; half of the runs change the handler population (slot 0 always keeps NETWORK | NETWORK_ID | TTX_PAGE); '
          'non-trivial = at least one accepted NETWORK event and at least 20 receptions; distinct = distinct event-log hash',
  'fault_kinds': ['fault_vps_cni', 'fault_8301_cni', 'fault_8302_cni', 'fault_vps_pil', 'fault_8302_pil', 'fault_8301_time', 'fault_drop',
-                 'fault_ham1', 'fault_ham2', 'fault_wss_word', 'fault_wss_parity', 'fault_gap',
+                 'fault_ham1', 'fault_ham2', 'fault_wss_word', 'fault_wss_parity', 'fault_gap', 'fault_retune', 'fault_handler_change',
                  'fault_xds_deviate', 'fault_xds_parity', 'fault_xds_checksum', 'fault_xds_drop'],
  'components': {'real': ['src/vbi.c', 'src/packet.c', 'src/wss.c', 'src/caption.c', 'src/tables.c', 'src/network-table.h', 'src/packet-830.c',
                          'src/vps.c', 'src/cache.c', 'src/event.c', 'src/hamm.c'],
@@ -43,5 +47,13 @@ FRAGMENT = {
                  'unchanged since name or call letters last changed (the statement gives no deadline, "received again unchanged" would be two) and the call letters '
                  'received last differ from the announced ones (or no call letters were ever received and the names differ); a new name under unchanged call '
                  'letters is not decided',
+                 'dropped frames: vbi_decode() documents that a channel switch may eventually be assumed; ONE assumed switch (station revoked, identifiers forgotten and '
+                 'announced afresh, cache dropped) is accepted per suspicion, at any later time; the suspicion ends with a blank NETWORK event raised by no reception '
+                 '(switch executed) or with the NETWORK event of a confirmed change between two identified stations (the switch that was suspected); a suspicion that '
+                 'ends invisibly leaves the run relaxed',
+                 '"not announced again" (ASPECT, and the aspect carried by PROG_INFO) is demanded while at least one handler that received the announcement has kept '
+                 'that event type registered ever since; without such a witness a fresh announcement is accepted (not demanded); with no ASPECT handler PROG_INFO '
+                 'from a WSS line is held to the aspect fidelity / debounce clauses',
+                 'one event = its delivery to the lowest-numbered subscribed handler (which handlers receive it is C11); handler masks change between frames only',
                  'corrupted words never produce CNI 0 and never 0x0DC3 on 8/30-2; WSS subtitle code 11 (reserved) is not transmitted']}
 }
